@@ -316,7 +316,7 @@ func checkCmd(opts *RunOpts, args []string) int {
 	witnessCache := map[string]bool{}
 	var unsatCore []string
 	cexCache := map[string]*Cex{}
-	var cov_order, cov_rel, cov_neg, cov_q, cov_h, cov_d, cov_f, cov_w, cov_su, cov_c, cov_s, cov_t map[string]any
+	var cov_order, cov_rel, cov_neg, cov_q, cov_h, cov_he, cov_d, cov_f, cov_w, cov_su, cov_c, cov_s, cov_t map[string]any
 
 	for _, res := range run.Results {
 		if res.Trusted {
@@ -628,6 +628,19 @@ func checkCmd(opts *RunOpts, args []string) int {
 		}
 		cov_q = cv
 	}
+	if run.HeRan {
+		kl, vl, cv := boundedListVerdict(opts, prop, known, "bounded.helpers.truth", "c20_helpers_known.txt", run.HeFailing, run.HeTotal,
+			"wait / ask helpers of pkg/helpers on the real machine: Cant* / Ask* for a possible and a vetoed Add / Remove, Add1Sync / Remove1Sync executed at once, queued then accepted, queued then vetoed, Add1Async with the awaited state activated by a relation, by a handler synchronously, by a goroutine later, and a rejected mutation; every helper on a disposed machine; 3 s watchdog on every call",
+			"helpers that do not answer what happened to the machine", "return something other than what happened to the machine, or block", nil)
+		if kl != "" {
+			knownLines = append(knownLines, kl)
+			nKnown++
+		}
+		if vl != "" {
+			violations = append(violations, vl)
+		}
+		cov_he = cv
+	}
 	if run.HRan {
 		_, vl, cv := boundedListVerdict(opts, prop, known, "bounded.history.log", "none.txt", run.HFailing, run.HTotal,
 			"in-memory history on the real machine: states A, B (Multi), C (Removes A); every history of up to 3 Add/Remove mutations; tracking configurations {all states, reordered subset, MaxRecords=2, Changed allow-list, Called block-list, TrackRejected}; queries Active / Inactive / Activated / Deactivated per tracked state, alone, with machine-time-sum ranges and with limit 1; the *Between helpers; Export -> Import on a fresh machine",
@@ -745,6 +758,9 @@ func checkCmd(opts *RunOpts, args []string) int {
 	}
 	if cov_h != nil {
 		cov["bounded_history_standin"] = cov_h
+	}
+	if cov_he != nil {
+		cov["bounded_helpers_standin"] = cov_he
 	}
 	if cov_q != nil {
 		cov["bounded_queue_standin"] = cov_q
